@@ -915,6 +915,8 @@ func (t ParsedTable) ToMarkdown() string {
 // escapeMarkdown escapes special markdown characters in table cells.
 func escapeMarkdown(s string) string {
 	s = strings.ReplaceAll(s, "|", "\\|")
+	s = strings.ReplaceAll(s, "\r\n", " ")
 	s = strings.ReplaceAll(s, "\n", " ")
+	s = strings.ReplaceAll(s, "\r", " ") // a bare CR ends a line for a Markdown parser too
 	return s
 }
